@@ -235,7 +235,7 @@ func (g *Gen) Request(c int) *wire.Req {
 	}
 	_ = pid
 	kind := g.pickKind()
-	if sid < 0 && g.rnd.Intn(3) > 0 {
+	if sid < 0 && g.rnd.Intn(8) > 0 && kind != "ping" && kind != "receipt" {
 		kind = "join" // connections that are not in a session mostly try to join
 	}
 	g.rid++
@@ -276,7 +276,7 @@ func (g *Gen) Request(c int) *wire.Req {
 			r.Target = "bogus"
 		}
 	case "entityAdd":
-		r.Persist = g.rnd.Intn(4) == 0
+		r.Persist = g.rnd.Intn(5) < 2
 		r.Flag = uint32(g.rnd.Intn(2))
 		r.Pose = g.pose(0.15)
 	case "entityDelete":
@@ -420,7 +420,12 @@ func (g *Gen) Run(steps int) {
 			}
 		}
 	}
-	// let everything settle: flush and handle all queues
+	g.settle()
+	g.probe()
+}
+
+// settle flushes every pending update and handles every queued message.
+func (g *Gen) settle() {
 	for round := 0; round < 2; round++ {
 		for _, s := range sortedKeys(g.w.know.sids) {
 			g.w.Tick(s)
@@ -429,6 +434,56 @@ func (g *Gen) Run(steps int) {
 			for g.w.conns[c].alive && g.w.Handle(c) {
 			}
 		}
+	}
+}
+
+func (g *Gen) do(c int, r *wire.Req) {
+	g.rid++
+	g.ots++
+	r.Rid, r.Ots = g.rid, g.ots
+	g.w.Recv(c, r)
+	for g.w.conns[c].alive && g.w.Handle(c) {
+	}
+}
+
+// probe: at the end of a history two fresh connections join every session that may still be alive and
+// exercise it (snapshots, lists, a component of every type, an action, an asset, an update through a
+// frame), so that state the random part left behind becomes observable.
+func (g *Gen) probe() {
+	for _, sid := range sortedKeys(g.w.know.sids) {
+		a, b := g.nextCon, g.nextCon+1
+		g.nextCon += 2
+		g.w.Connect(a)
+		g.w.Connect(b)
+		g.do(a, &wire.Req{Kind: "join", Target: "id", TargetN: uint32(sid)})
+		if _, ok := g.w.know.joined[a]; !ok {
+			g.w.Disconnect(a)
+			g.w.Disconnect(b)
+			continue
+		}
+		g.do(b, &wire.Req{Kind: "join", Target: "id", TargetN: uint32(sid)})
+		maxT, maxE := g.w.know.maxTid[sid], g.w.know.maxEid[sid]
+		for t := 1; t <= maxT && t <= 6; t++ {
+			g.do(a, &wire.Req{Kind: "compList", N1: uint32(t)})
+			g.do(a, &wire.Req{Kind: "typeGetName", N1: uint32(t)})
+		}
+		g.do(b, &wire.Req{Kind: "entityAdd", Persist: false, Pose: g.pose(0)})
+		eb := g.w.know.maxEid[sid]
+		for t := 1; t <= maxT && t <= 6; t++ {
+			g.do(b, &wire.Req{Kind: "compAdd", N1: uint32(t), N2: uint32(eb), Data: []byte{byte(t)}})
+			g.w.Recv(b, &wire.Req{Kind: "compUpdate", Ots: g.ots + 1000, N1: uint32(t), N2: uint32(eb), Data: []byte{byte(t), 1}})
+		}
+		for e := 1; e <= maxE && e <= 8; e++ {
+			g.w.Recv(b, &wire.Req{Kind: "updatePose", Ots: g.ots + 2000 + uint32(e), N1: uint32(e), Pose: g.pose(0)})
+		}
+		g.w.Tick(sid)
+		for g.w.conns[b].alive && g.w.Handle(b) {
+		}
+		g.do(b, &wire.Req{Kind: "action", Act: &wire.Action{Eid: uint32(eb), Name: "probe", Ts: &wire.Ts{Secs: 7}, Data: []byte{1}}})
+		g.do(b, &wire.Req{Kind: "assetAdd", Str: "probe-asset", N1: uint32(eb)})
+		g.do(b, &wire.Req{Kind: "custom", Data: []byte("probe")})
+		g.w.Disconnect(b)
+		g.w.Disconnect(a)
 	}
 }
 
